@@ -102,6 +102,8 @@ def classify(to, info):
         return None, dm["total"][to]
     if to in dm.get("panics", {}):
         return "panic", "dependency model: " + dm["panics"][to]
+    if to in dm.get("alloc_declared", {}):
+        return "alloc", "dependency model: " + dm["alloc_declared"][to]
     if INDEX_IMPL.search(to):
         return "panic", "Index/IndexMut impl panics when out of range / key missing"
     if INHERIT_OVERFLOW.match(to):
